@@ -45,6 +45,7 @@ var areas = map[string]common.Area{
 	"c08":     c08.Area{},
 	"c09":     c09.Area{},
 	"c10":     c10.Area{},
+	"c10race": c10.RaceArea{},
 	"c11":     c11.Area{},
 	"c12":     c12.Area{},
 	"c12e2e":  c12e2e.Area{},
